@@ -466,9 +466,12 @@ pub const fn inv_mod2k_full_vartime(&self, k: u32) -> (ret__: Option<Self>)
 impl<const LIMBS: usize> Uint<LIMBS> {
 pub const fn inv_mod2k_vartime(&self, k: u32) -> (ret__: ConstCtOption<Self>)
 //@+
-    requires 1 <= LIMBS < 0x400_0000, k as int <= 64 * LIMBS
+    requires 1 <= LIMBS < 0x400_0000
+    // every k is admitted: for k > BITS only the low BITS bits are representable and the result is the inverse mod 2^BITS,
+    // like the constant-time `inv_mod2k` (this pins the repair of the `k > BITS` panic, known_findings F18)
     ensures ret__.is_some.wf(), ret__.is_some.t() == (k == 0 || self.v() % 2 == 1),
-        ret__.is_some.t() ==> 0 <= ret__.value.v() < p2(k as nat) && (self.v() * ret__.value.v()) % p2(k as nat) == 1int % p2(k as nat)
+        ret__.is_some.t() ==> ({ let kk = (if k as int > 64 * LIMBS { 64 * LIMBS } else { k as int }) as nat;
+            0 <= ret__.value.v() < p2(kk) && (self.v() * ret__.value.v()) % p2(kk) == 1int % p2(kk) })
 //@-
 {
         // Using the Algorithm 3 from "A Secure Algorithm for Inversion Modulo 2k"
